@@ -58,16 +58,81 @@ SERDE_DERIVES = {"Serialize", "Deserialize"}
 class Piece:
     """One extracted item with its edits, placed in a module of the generated crate."""
 
-    def __init__(self, unit, relpath, spec, module, mode, fnspecs, props, wrap_impl=None):
+    def __init__(self, unit, relpath, spec, module, mode, fnspecs, props, keep_derives=()):
         self.unit, self.relpath, self.spec, self.module = unit, relpath, spec, module
         self.mode = mode  # verify | stub | data
         self.fnspecs = fnspecs or {}
         self.props = props or []
-        self.sf = source(relpath)
-        self.item = self.sf.find(spec)
-        self.impl = self.sf.parent_impl(self.item)
+        self.keep_derives = set(keep_derives)
+        real = source(relpath)
+        ritem = real.find(spec)
+        rimpl = real.parent_impl(ritem)
+        self.impl_header = None
+        if rimpl is not None and ritem is not rimpl:
+            k = rimpl.k0
+            while rimpl.toks[k].text != "impl":
+                k += 1
+            self.impl_header = real.text[rimpl.toks[k].start:rimpl.toks[rimpl.body_open].start]
+        self.orig_text = real.text[ritem.start:ritem.end]
+        self.sha256 = hashlib.sha256(self.orig_text.encode()).hexdigest()
         self.edits = []
         self.rewrites_log = []
+        text = self.orig_text
+        # T-MACRO: expand the repository's own single-arm macro_rules! at their call sites (pre-pass)
+        if mode != "stub":
+            text = self._expand_macros(text)
+        self.sf = SourceFile(relpath + "::" + spec, text)
+        if len(self.sf.items) != 1:
+            raise Undecided(f"{spec}: expected one item after extraction, got {len(self.sf.items)}")
+        self.item = self.sf.items[0]
+
+    def _expand_macros(self, text):
+        for _round in range(4):
+            toks = lex(text)
+            hit = None
+            for k, t in enumerate(toks):
+                if t.kind == "ident" and t.text in self.unit.macros and k + 2 < len(toks) \
+                        and toks[k + 1].text == "!" and toks[k + 2].text in OPEN and (k == 0 or toks[k - 1].text != "macro_rules"):
+                    hit = k
+                    break
+            if hit is None:
+                return text
+            k = hit
+            params, body = self.unit.macros[toks[k].text]
+            kc = match_close(toks, k + 2)
+            # split arguments at top-level commas
+            args, cur, j = [], toks[k + 2].end, k + 3
+            while j < kc:
+                if toks[j].text in OPEN:
+                    j = match_close(toks, j) + 1
+                    continue
+                if toks[j].text == ",":
+                    args.append(text[cur:toks[j].start].strip())
+                    cur = toks[j].end
+                j += 1
+            last = text[cur:toks[kc].start].strip()
+            if last:
+                args.append(last)
+            if len(args) != len(params):
+                raise Undecided(f"macro {toks[k].text}: {len(args)} arguments for {len(params)} parameters")
+            exp = body
+            for pname, a in sorted(zip(params, args), key=lambda x: -len(x[0])):
+                exp = re.sub(r"\$" + pname + r"\b", lambda m: a, exp)
+            if "$" in exp:
+                raise Undecided(f"macro {toks[k].text}: unsubstituted metavariable")
+            start = toks[k].start
+            # include path prefix `crate::a::` if any
+            kk = k
+            while kk >= 2 and toks[kk - 1].text == ":" and toks[kk - 2].text == ":":
+                kk -= 3
+                start = toks[kk].start
+            self.rewrites_log.append({"rule": "T-MACRO", "file": self.relpath, "item": self.spec,
+                                      "from": text[start:toks[kc].end], "to": exp})
+            text = text[:start] + exp + text[toks[kc].end:]
+        raise Undecided("macro expansion did not terminate")
+
+    def _dummy(self):
+        pass
 
     # -- helpers ---------------------------------------------------------------------------
     def _add(self, start, end, text, rule, order=0):
@@ -91,7 +156,7 @@ class Piece:
                 self._add(start, end, "", "T-ATTR")
             elif name == "derive":
                 names = [x.strip() for x in inner[inner.index("(") + 1:inner.rindex(")")].split(",") if x.strip()]
-                keep = [n for n in names if n not in SERDE_DERIVES and n not in self.unit.drop_derives]
+                keep = [n for n in names if n not in SERDE_DERIVES and (n in self.keep_derives or n not in self.unit.drop_derives)]
                 if keep != names:
                     self._add(start, end, f"#[derive({', '.join(keep)})]" if keep else "", "T-ATTR")
             k = close + 1
@@ -139,6 +204,10 @@ class Piece:
                     raise Undecided(f"{fn.name}: unsupported async construct")
                 self._add(t.start, toks[j].start, "", "T-CTRL")
             k += 1
+        # T-CLOSURE: `|_|` -> `|_unused|` (the installed Verus rejects a wildcard closure parameter)
+        for k in range(kb, k1):
+            if toks[k].text == "_" and toks[k - 1].text == "|" and toks[k + 1].text == "|":
+                self._add(toks[k].start, toks[k].end, "_unused", "T-CLOSURE")
         # T-LOG: log::level!( .. )
         k = kb
         while k < k1:
@@ -152,6 +221,8 @@ class Piece:
                 self._add(t.start, toks[close].end, "()", "T-LOG")
                 k = close
             k += 1
+        # T-ATTR inside bodies: #[cfg(feature = "crypto_openssl")] on statements/blocks (feature is on in every shipped build)
+        self._inner_attr_strip(kb, k1)
         # parameter list
         kp = kf + 2
         if toks[kp].text == "<":
@@ -367,11 +438,64 @@ class Piece:
             k += 1
 
     # -- main ------------------------------------------------------------------------------
+    def _env_rewrite(self):
+        """T-ENV: env!("NAME") is a build-time string constant; its content is irrelevant to every property"""
+        toks = self.sf.toks
+        for k in range(self.item.k0, self.item.k1):
+            if toks[k].text == "env" and toks[k + 1].text == "!" and toks[k + 2].text == "(":
+                kc = match_close(toks, k + 2)
+                self._add(toks[k].start, toks[kc].end, '"<build-time constant>"', "T-ENV")
+
     def render(self):
         it = self.item
         self._strip_attrs()
+        self._env_rewrite()
         if it.kind in ("struct", "enum"):
-            self._inner_attr_strip(it.k0, it.k1)
+            kk = it.k0
+            while self.sf.toks[kk].text == "#":
+                kk = match_close(self.sf.toks, kk + 1) + 1
+            self._inner_attr_strip(kk, it.k1)
+        if it.kind == "struct" and it.body_open is not None:
+            # T-VIS: private fields become `pub` (visibility has no run-time meaning; Verus treats a type with
+            # any private field as opaque in contracts of public functions)
+            toks = self.sf.toks
+            k = it.body_open + 1
+            expect_field = True
+            while k < it.k1:
+                t = toks[k]
+                if t.text in ("(", "[", "{"):
+                    k = match_close(toks, k) + 1
+                    continue
+                if t.text == "<":
+                    depth = 0
+                    while True:
+                        if toks[k].text == "<":
+                            depth += 1
+                        elif toks[k].text == ">":
+                            depth -= 1
+                            if depth == 0:
+                                break
+                        k += 1
+                    k += 1
+                    continue
+                if t.text == "#":
+                    k = match_close(toks, k + 1) + 1
+                    continue
+                if expect_field and t.kind == "ident":
+                    if t.text != "pub":
+                        self._add(t.start, t.start, "pub ", "T-VIS")
+                    expect_field = False
+                if t.text == ",":
+                    expect_field = True
+                k += 1
+        if it.kind == "const":
+            # the elided lifetime of a const reference is 'static; Verus wants it written out
+            toks = self.sf.toks
+            for k in range(it.k0, it.k1):
+                if toks[k].text == "=":
+                    break
+                if toks[k].text == "&" and toks[k + 1].kind != "lifetime":
+                    self._add(toks[k].end, toks[k].end, "'static ", "T-CONST")
         fns = find_fns(it)
         if it.kind in ("fn", "impl", "trait"):
             for name, fn in fns.items():
@@ -405,10 +529,8 @@ class Piece:
             raise Undecided(f"{self.spec}: erasure check failed")
         # wrap methods of inherent impls
         pre, post = "", ""
-        if self.impl is not None:
-            hdr = text[self.impl.toks[self._impl_kw()].start:self.impl.toks[self.impl.body_open].start]
-            pre, post = hdr + "{\n", "\n}"
-        self.sha256 = hashlib.sha256(text[it.start:it.end].encode()).hexdigest()
+        if self.impl_header is not None:
+            pre, post = self.impl_header + "{\n", "\n}"
         return pre, segs, post
 
     def _impl_kw(self):
@@ -428,6 +550,7 @@ class Unit:
         self.ghost_methods = set()
         self.drop_derives = set()
         self.pieces = []
+        self.macros = {}   # name -> ([param names], body text)
         self.vacuity = False
         self.vacuity_expected = []
         self.module("", "")
@@ -452,9 +575,9 @@ class Unit:
         else:
             self.ghost_free[name] = set(quals)
 
-    def take(self, relpath, spec, module, mode="data", fns=None, props=None):
+    def take(self, relpath, spec, module, mode="data", fns=None, props=None, keep_derives=()):
         self.module(module)
-        p = Piece(self, relpath, spec, module, mode, fns, props)
+        p = Piece(self, relpath, spec, module, mode, fns, props, keep_derives)
         self.modules[module]["parts"].append(("piece", p))
         self.pieces.append(p)
         # register ghost call patterns
@@ -470,6 +593,30 @@ class Unit:
                 else:
                     self.ghost_free.setdefault(name, set())
         return p
+
+    def macro(self, relpath, name):
+        """register one of the repository's own single-arm macro_rules! for T-MACRO expansion"""
+        sf = source(relpath)
+        it = sf.find(name)
+        if it.kind != "macro_rules":
+            raise Undecided(f"{name} is not a macro_rules item")
+        toks = sf.toks
+        ko = it.body_open
+        # single arm: ( params ) => { body } ;?
+        if toks[ko + 1].text != "(":
+            raise Undecided(f"macro {name}: unexpected shape")
+        pc = match_close(toks, ko + 1)
+        params = [toks[j + 1].text for j in range(ko + 2, pc) if toks[j].text == "$"]
+        j = pc + 1
+        if not (toks[j].text == "=" and toks[j + 1].text == ">"):
+            raise Undecided(f"macro {name}: unexpected shape")
+        bo = j + 2
+        bc = match_close(toks, bo)
+        rest = [t.text for t in toks[bc + 1:it.k1]]
+        if any(x not in (";",) for x in rest):
+            raise Undecided(f"macro {name}: more than one arm")
+        body = sf.text[toks[bo].end:toks[bc].start]
+        self.macros[name] = (params, body)
 
     def verify(self, relpath, spec, module, fns=None, props=None):
         return self.take(relpath, spec, module, "verify", fns, props)
